@@ -233,6 +233,32 @@ static void rec_expected(const bytes &in_blocks, int T, int chunk, bytes &out, s
   }
 }
 
+// An earlier operation of the same process (C04 only): the judged operation must terminate whatever ran before
+// it. Small fixed input, canonical schedule; `pre` = rejdec | rejver | garbage | enc | dec.
+static void run_prelude(const std::string &pre, const EncCase &e, int preT)
+{
+  EncCase pe = e;
+  pe.T = preT;
+  pe.P = expand(0x5eed, 40, 0);
+  pe.seed = bytes{'p', 'r', 'e'};
+  pe.refill = 0;
+  wapi::SchedSpec canon;
+  wapi::PipeCfg pc = pcfg(pe, canon);
+  bytes file = ref::encrypt_file(pe.P, fparams(pe));
+  bytes wrong = pe.key;
+  wrong[5] ^= 0x40;
+  if (pre == "rejdec")
+    wapi::decrypt(file, wrong, pc);
+  else if (pre == "rejver")
+    wapi::verify(file, wrong, pc, false);
+  else if (pre == "garbage")
+    wapi::decrypt(expand(0xbad, 100, 0), pe.key, pc);
+  else if (pre == "enc")
+    wapi::encrypt(pe.P, pe.key, pe.seed, pe.cmode, pe.hmode, pc);
+  else if (pre == "dec")
+    wapi::decrypt(file, pe.key, pc);
+}
+
 Verdict run_sched_case(const Case &c, SchedProp which)
 {
   EncCase e = enc_from(c);
@@ -285,9 +311,13 @@ Verdict run_sched_case(const Case &c, SchedProp which)
   // ---- run ----
   wapi::PipeCfg pc = pcfg(e, e.s1);
   pc.sched.record = true;
-  pc.want_events = (which == SP_C14);
+  pc.want_events = (which == SP_C14) && wapi::has_scheduler(); // on real threads the event log's own lock would order the threads and hide races
   g_last_trace_valid = false;
+  std::string pre = which == SP_C04 ? c.get("pre", "") : "";
+  int preT = (int)c.geti("preT");
   ChildResult r = run_in_child([&]() -> bytes {
+    if (!pre.empty())
+      run_prelude(pre, e, preT < 1 ? 1 : preT);
     if (op == "enc")
       return wapi::encrypt(input, e.key, e.seed, e.cmode, e.hmode, pc).ser();
     if (op == "dec")
@@ -356,6 +386,8 @@ Verdict run_sched_case(const Case &c, SchedProp which)
   if (bnd)
     v.classes.push_back("boundary_len");
   v.classes.push_back("sched_kind" + std::to_string(e.s1.kind));
+  if (!pre.empty())
+    v.classes.push_back("after_earlier_op=" + pre);
   {
     // distinct by (config, resolved decision trace)
     std::string t;
@@ -369,6 +401,7 @@ Verdict run_sched_case(const Case &c, SchedProp which)
     id.seti("cm", e.cmode);
     id.set("trace", t);
     id.set("spur", std::to_string(o.sched.spurious));
+    id.set("pre", pre);
     v.distinct = fnv64(id.text());
   }
   if (which == SP_C04)
@@ -390,13 +423,79 @@ Verdict run_sched_case(const Case &c, SchedProp which)
     v.nontrivial = false;
     return v;
   }
+  // ---- real-thread builds (ThreadSanitizer): no scheduler, no event ordering; the oracle is the sanitizer
+  //      (any data race between pipeline threads, whatever the timing) plus, for C03, the output ----
+  if (!wapi::has_scheduler())
+  {
+    v.classes.push_back("real_threads_tsan");
+    if (r.status == CH_EXIT && r.code == 97)
+    {
+      // judge the sanitizer's report: which threads, which memory, inside the transformation or not
+      const std::string &rep = r.detail;
+      bool is_race = rep.find("ThreadSanitizer: data race") != std::string::npos;
+      bool main_party = rep.find("by main thread") != std::string::npos;
+      bool worker_party = false;
+      for (size_t p = rep.find("by thread T"); p != std::string::npos; p = rep.find("by thread T", p + 1))
+        worker_party = true;
+      bool heap = rep.find("Location is heap block") != std::string::npos;
+      bool symbolized = rep.find("multiruncrypt_file") != std::string::npos || rep.find(".cpp:") != std::string::npos;
+      bool in_transform = rep.find("runcry") != std::string::npos || rep.find("runaes_128bit") != std::string::npos;
+      std::string summary;
+      {
+        size_t pos = 0;
+        int kept = 0;
+        while (pos < rep.size() && kept < 14)
+        {
+          size_t nl = rep.find('\n', pos);
+          if (nl == std::string::npos)
+            nl = rep.size();
+          std::string ln = rep.substr(pos, nl - pos);
+          pos = nl + 1;
+          bool keep = ln.find("WARNING:") != std::string::npos || ln.find(" of size ") != std::string::npos || ln.find("Location is") != std::string::npos || ln.find("#0 ") != std::string::npos || ln.find("#1 ") != std::string::npos;
+          if (keep)
+          {
+            size_t par = ln.find(" (harness-");
+            if (par != std::string::npos)
+              ln = ln.substr(0, par);
+            while (!ln.empty() && ln[0] == ' ')
+              ln.erase(0, 1);
+            summary += (summary.empty() ? "" : " | ") + ln;
+            kept++;
+          }
+        }
+      }
+      if (rep.empty())
+        return bad("ThreadSanitizer stopped the run (exit 97) but left no report file");
+      bool hit;
+      if (which == SP_C14)
+        hit = is_race && heap && main_party && worker_party; // I/O thread and a worker on the same buffer / control block without a hand-over
+      else if (which == SP_C03)
+        hit = is_race && worker_party && (heap || in_transform || !symbolized); // chunk data or the cipher transformation itself depends on the schedule
+      else
+        hit = false;
+      if (hit)
+        return bad("ThreadSanitizer: data race between pipeline threads, no hand-over orders the two accesses: " + summary);
+      if (getenv("WV_DEBUG_TSAN"))
+        fprintf(stderr, "TSAN-OUTSIDE heap=%d main=%d worker=%d transform=%d sym=%d\n%s\n", heap, main_party, worker_party, in_transform, symbolized, rep.c_str());
+      v.classes.push_back(is_race ? "tsan_race_outside_this_property" : "tsan_other_report");
+      v.nontrivial = false;
+      return v;
+    }
+    if (which != SP_C03 || r.status != CH_OK)
+    {
+      v.nontrivial = which != SP_C04 && r.status == CH_OK && nch >= 2 && e.T >= 2;
+      return v; // hangs / crashes on real threads: the deterministic runs decide those
+    }
+    v.nontrivial = nch >= 2 && e.T >= 2;
+  }
   // ---- C04: termination ----
   if (which == SP_C04)
   {
+    std::string after = pre.empty() ? "" : " (operation run after an earlier " + pre + " with T=" + std::to_string(preT) + " in the same process; the hang may be in either)";
     if (r.status == CH_DEADLOCK || r.status == CH_STEPLIMIT)
-      return bad("did not terminate: " + r.describe());
+      return bad("did not terminate: " + r.describe() + after);
     if (r.status != CH_OK)
-      return bad("did not return normally: " + r.describe());
+      return bad("did not return normally: " + r.describe() + after);
     if (o.live_after != 0)
       return bad("operation returned but the buffer controller still reports live buffers");
     return v;
@@ -461,7 +560,7 @@ Verdict run_sched_case(const Case &c, SchedProp which)
           return bad("unknown stream");
         if (cl.ordinal != next[cl.stream]++)
           return bad("stream " + std::to_string(cl.stream) + " called out of order");
-        if (cl.tid != cl.stream + 1)
+        if (cl.tid >= 0 && cl.tid != cl.stream + 1)
           return bad("stream " + std::to_string(cl.stream) + " driven by thread " + std::to_string(cl.tid));
         if (ro.buf_stride)
         {
@@ -496,6 +595,8 @@ Case gen_sched_case(SchedProp which)
   Case c;
   long k = g::range(0, 100);
   std::string op = k < 30 ? "enc" : k < 55 ? "dec" : k < 60 ? "ver" : k < 85 ? "rec" : "recnp";
+  if (!wapi::has_scheduler()) // real threads: the recorder serialises workers through its own lock and would hide races
+    op = k < 48 ? "enc" : k < 94 ? "dec" : "ver";
   c.set("op", op);
   int T = (int)(g::coin(85) ? g::range(1, 6) : g::coin(50) ? 16 : g::range(6, 17));
   int bpc = (int)g::range(1, 5); // blocks per chunk
@@ -522,7 +623,11 @@ Case gen_sched_case(SchedProp which)
   c.seti("T", T);
   c.seti("chunk", chunk);
   c.set("sched", gen_sched(T, (size_t)(len / 16 + 1)).text());
-  (void)which;
+  if (which == SP_C04 && wapi::has_scheduler() && g::coin(20))
+  {
+    c.set("pre", g::oneof<std::string>({"rejdec", "rejver", "garbage", "enc", "dec"}));
+    c.seti("preT", g::coin(50) ? T : g::range(1, 6));
+  }
   return c;
 }
 
